@@ -916,11 +916,20 @@ func (ctx *Context) evaluate() {
 			diceStates[diceStateIndex].highNum, _ = v.ReadInt()
 		case typeDiceSetMin:
 			v := stackPop()
-			i, _ := v.ReadInt()
+			i, ok := v.ReadInt()
+			if !ok {
+				// 非整数曾被当作 0: 2d6max(1.5) 的每颗骰子都成了 0
+				ctx.Error = errors.New("骰子的 min 参数不为整数")
+				return
+			}
 			diceStates[diceStateIndex].min = &i
 		case typeDiceSetMax:
 			v := stackPop()
-			i, _ := v.ReadInt()
+			i, ok := v.ReadInt()
+			if !ok {
+				ctx.Error = errors.New("骰子的 max 参数不为整数")
+				return
+			}
 			diceStates[diceStateIndex].max = &i
 		case typeDetailMark:
 			span := code.Value.(BufferSpan)
